@@ -59,6 +59,7 @@ class LagMode(vlib.Mode):
         size = rng.choice([1024, 16384, 65536, 65536])
         per = rng.choice([10, 25, 40])
         rounds = {1024: 40, 16384: 12, 65536: 8}[size]
+        if rng.random() < 0.4: case.append("floodtypes alternate")     # text and binary frames alternate (what is delivered must not depend on it)
         for k in range(rounds):
             case.append(f"flood n{wa} {per} {size} 1")
             case.append(f"flood n{wb} {per} {size} 2")
